@@ -10,7 +10,7 @@
 //! (new -> update* -> finalize), so one current transcript suffices.
 #![cfg(kani)]
 
-pub const CAP: usize = 320;
+pub const CAP: usize = 512;
 pub const SLOTS: usize = 6;
 
 static mut CUR: [u8; CAP] = [0; CAP];
@@ -50,8 +50,8 @@ fn digest_of_current() -> [u8; 32] {
             if SEEN_LEN[k] == CUR_LEN {
                 let mut same = true;
                 let mut i = 0;
-                while i < CAP {
-                    if i < CUR_LEN && SEEN[k][i] != CUR[i] {
+                while i < CUR_LEN {
+                    if SEEN[k][i] != CUR[i] {
                         same = false;
                     }
                     i += 1;
@@ -84,6 +84,14 @@ pub fn hash(input: &[u8]) -> blake3::Hash {
     let mut h = hasher_new();
     hasher_update(&mut h, input);
     hasher_finalize(&h)
+}
+
+/// Forgets every transcript seen so far (between independent sub-cases of one harness).
+pub fn reset() {
+    unsafe {
+        N_SEEN = 0;
+        CUR_LEN = 0;
+    }
 }
 
 /// Length of the transcript fed to the most recent hasher (for vacuity/cover checks).
